@@ -29,6 +29,8 @@ fn lfo_freq(fs: f32) -> BoxedStrategy<f32> {
         }),
         // close to the sample rate
         1 => (0u32..4).prop_map(move |d| f32::from_bits(fs.to_bits() - d)),
+        // whole numbers of samples per cycle
+        1 => proptest::sample::select(vec![1.0f32, 2.0, 3.0, 4.0, 8.0, 16.0, 1024.0, 65536.0]).prop_map(move |k| fs / k),
     ]
     .boxed()
 }
